@@ -583,6 +583,56 @@ fn setup(name: &str) -> Option<Setup> {
             s.ents = uring_single(name).into();
             s
         }
+        // ---------------------------------------------------------------- receiving descriptors (rusl recvmsg + control_messages)
+        // `recvmsg_rights_<k>_<len>`: the peer has sent ONE message with k descriptors (SCM_RIGHTS); the operation receives it
+        // with a control buffer of <len> bytes (0 = none), iterates control_messages() and owns every descriptor it yields
+        n if n.starts_with("recvmsg_rights_") => {
+            use rusl::platform::{ControlMessageSend, IoSlice, IoSliceMut, MsgHdrBorrow};
+            use std::os::unix::io::AsRawFd as _;
+            let mut it = n["recvmsg_rights_".len()..].split('_');
+            let k: usize = it.next()?.parse().ok()?;
+            let len: usize = it.next()?.parse().ok()?;
+            if it.next().is_some() || k == 0 || k > 4 || len > 64 {
+                return None;
+            }
+            let (tx, rx) = std::os::unix::net::UnixStream::pair().ok()?;
+            let files: Vec<std::fs::File> = (0..k).map(|_| std::fs::File::open("/dev/null").unwrap()).collect();
+            let to_send: Vec<rusl::platform::Fd> = files.iter().map(|f| rusl::platform::Fd::try_new(f.as_raw_fd()).unwrap()).collect();
+            let io_out = [IoSlice::new(b"Hello")];
+            let snd = MsgHdrBorrow::create_send(None, &io_out, Some(ControlMessageSend::ScmRights(&to_send)));
+            let sent = rusl::network::sendmsg(rusl::platform::Fd::try_new(tx.as_raw_fd()).unwrap(), &snd, 0).ok()?;
+            if sent != 5 {
+                return None;
+            }
+            let rxfd = rusl::platform::Fd::try_new(rx.as_raw_fd()).unwrap();
+            let mut s = simple(move || {
+                #[repr(C, align(8))]
+                struct Aligned([u8; 64]);
+                let mut data = [0u8; 16];
+                let mut io_in = [IoSliceMut::new(&mut data)];
+                let mut ctrl = Aligned([0u8; 64]);
+                let mut got: Vec<i32> = vec![];
+                let r = {
+                    let mut hdr = MsgHdrBorrow::create_recv(&mut io_in, if len == 0 { None } else { Some(&mut ctrl.0[..len]) });
+                    let r = rusl::network::recvmsg(rxfd, &mut hdr, 0);
+                    if r.is_ok() {
+                        let hdr = &hdr;
+                        for cm in hdr.control_messages() {
+                            match cm {
+                                ControlMessageSend::ScmRights(fds) => got.extend(fds.iter().map(|f| f.value())),
+                            }
+                        }
+                    }
+                    r
+                };
+                match r {
+                    Ok(_) => OpOut { out: "ok".into(), handed: Handed::Fds(got.clone()), keep: Box::new(()), raw_close: got },
+                    Err(e) => nothing(rusl_err_str(&e)),
+                }
+            });
+            s.guards.push(Box::new((tx, rx, files)));
+            s
+        }
         _ => return None,
     })
 }
